@@ -232,6 +232,15 @@ def split_tags(r):
         return a, b
     return r, ""
 
+DOCUMENTED_PANIC = re.compile(r"^panic (?!internal:|custom:)\S+$")
+
+def same(r, o):
+    """equality of an implementation answer and a model/oracle answer, up to the wording of a panic message the
+    crate wrote itself: `panic custom:<text>` stands for whichever documented class is expected"""
+    if r == o:
+        return True
+    return bool(r) and bool(o) and r.startswith("panic custom:") and DOCUMENTED_PANIC.match(o) is not None
+
 def compare(lines, impl, mo):
     """returns list of (idx, kind) kind in impl_oracle, model_oracle, impl_model"""
     dis = []
@@ -239,10 +248,10 @@ def compare(lines, impl, mo):
         if r == "unsupported" or m == "unsupported" or r == "skipped":
             continue
         if o == "-":
-            if r != m:
+            if not same(r, m):
                 dis.append((i, "impl_model"))
             continue
-        if r != o:
+        if not same(r, o):
             dis.append((i, "impl_oracle"))
         elif m != o:
             dis.append((i, "model_oracle"))
@@ -330,7 +339,7 @@ def still_fails(binp, cands, extra_args=()):
     for c, r, (m, o) in zip(cands, impl, mo):
         if r in ("unsupported", "skipped", "timeout", None) or m == "unsupported" or o == "-":
             continue
-        if r != o:
+        if not same(r, o):
             return c, r, m, o
     return None
 
